@@ -21,7 +21,9 @@
      stage 2b: PAIR n / UNPAIR n / GET k / UPDATE k (GET 0 / UPDATE 0 only on pairs: pytezos rejects other operands)
      stage 2c: mutez and timestamp arithmetic (ADD/SUB/MUL/EDIV overloads, SUB_MUTEZ, COMPARE), environment instructions
        AMOUNT BALANCE SENDER SOURCE SELF_ADDRESS NOW LEVEL CHAIN_ID reading an [env] record
-     later stages: sets/maps,
+     stage 3 (MODELS ONLY so far, outside every theorem: typecheck_nr rejects them): sets and maps (EMPTY_SET, EMPTY_MAP,
+       MEM, GET, UPDATE, GET_AND_UPDATE, SIZE/ITER on sets and maps, MAP on maps, set/map literals)
+     later stages:
        LAMBDA/EXEC/APPLY, environment instructions, PACK/UNPACK, hashes. *)
 From Coq Require Import List ZArith NArith Bool Arith.
 From Coq.Strings Require Import Byte.
@@ -39,7 +41,9 @@ Inductive ty : Type :=
 | TPair (a b : ty)
 | TOption (a : ty)
 | TOr (a b : ty)
-| TList (a : ty).
+| TList (a : ty)
+| TSet (k : ty)
+| TMap (k v : ty).
 
 Fixpoint ty_eqb (x y : ty) : bool :=
   match x, y with
@@ -49,6 +53,8 @@ Fixpoint ty_eqb (x y : ty) : bool :=
   | TOption a, TOption c => ty_eqb a c
   | TOr a b, TOr c d => ty_eqb a c && ty_eqb b d
   | TList a, TList c => ty_eqb a c
+  | TSet a, TSet c => ty_eqb a c
+  | TMap a b, TMap c d => ty_eqb a c && ty_eqb b d
   | _, _ => false
   end.
 
@@ -65,7 +71,9 @@ Inductive data : Type :=
 | DSome (d : data)
 | DLeft (d : data)
 | DRight (d : data)
-| DList (l : list data).
+| DList (l : list data)
+| DSet (l : list data)     (* a sequence literal read at a set type (rendered type-directedly by the harness) *)
+| DMap (l : list data).    (* { Elt k v ; ... }: the entries are written DPair k v *)
 
 Inductive instr : Type :=
 | I_NOOP                       (* the empty sequence {} *)
@@ -91,6 +99,7 @@ Inductive instr : Type :=
 | I_LEFT (t : ty) | I_RIGHT (t : ty)
 | I_SOME | I_NONE (t : ty) | I_UNIT
 | I_NIL (t : ty) | I_CONS | I_SIZE
+| I_EMPTY_SET (k : ty) | I_EMPTY_MAP (k v : ty) | I_MEM | I_GET | I_UPDATE | I_GET_AND_UPDATE   (* outside the proved fragment *)
 | I_ADD | I_SUB | I_MUL | I_NEG | I_ABS | I_ISNAT | I_INT | I_EDIV
 | I_SUB_MUTEZ
 | I_AMOUNT | I_BALANCE | I_SENDER | I_SOURCE | I_SELF_ADDRESS | I_NOW | I_LEVEL | I_CHAIN_ID
@@ -156,7 +165,9 @@ Inductive value : Type :=
 | VSome (v : value)
 | VLeft (v : value)
 | VRight (v : value)
-| VList (l : list value).
+| VList (l : list value)
+| VSet (l : list value)     (* elements in strictly increasing order *)
+| VMap (l : list value).    (* entries VPair k v, keys in strictly increasing order *)
 
 Fixpoint value_of_data (d : data) : value :=
   match d with
@@ -172,7 +183,62 @@ Fixpoint value_of_data (d : data) : value :=
   | DLeft x => VLeft (value_of_data x)
   | DRight x => VRight (value_of_data x)
   | DList l => VList (map value_of_data l)
+  | DSet l => VSet (map value_of_data l)
+  | DMap l => VMap (map value_of_data l)
   end.
+
+(* lexicographic order on byte strings *)
+Fixpoint bytes_cmp (a b : bytes) : comparison :=
+  match a, b with
+  | [], [] => Eq
+  | [], _ :: _ => Lt
+  | _ :: _, [] => Gt
+  | x :: r, y :: s =>
+      match N.compare (Byte.to_N x) (Byte.to_N y) with
+      | Eq => bytes_cmp r s
+      | c => c
+      end
+  end.
+
+(* ---- the total order of comparable values ---- *)
+Fixpoint v_compare (a b : value) {struct a} : option comparison :=
+  match a, b with
+  | VInt x, VInt y => Some (Z.compare x y)
+  | VMutez x, VMutez y => Some (Z.compare x y)
+  | VStr x, VStr y => Some (bytes_cmp x y)
+  | VBool x, VBool y => Some (match x, y with
+                              | false, true => Lt
+                              | true, false => Gt
+                              | _, _ => Eq
+                              end)
+  | VUnit, VUnit => Some Eq
+  | VPair a1 a2, VPair b1 b2 =>
+      match v_compare a1 b1 with
+      | Some Eq => v_compare a2 b2
+      | r => r
+      end
+  | VNone, VNone => Some Eq
+  | VNone, VSome _ => Some Lt
+  | VSome _, VNone => Some Gt
+  | VSome x, VSome y => v_compare x y
+  | VLeft x, VLeft y => v_compare x y
+  | VLeft _, VRight _ => Some Lt
+  | VRight _, VLeft _ => Some Gt
+  | VRight x, VRight y => v_compare x y
+  | _, _ => None
+  end.
+
+
+(* strictly increasing w.r.t. the order of comparable values *)
+Fixpoint v_strict_sorted (l : list value) : bool :=
+  match l with
+  | [] => true
+  | x :: r => match r with
+              | [] => true
+              | y :: _ => match v_compare x y with Some Lt => v_strict_sorted r | _ => false end
+              end
+  end.
+Definition v_key (entry : value) : value := match entry with VPair k _ => k | _ => entry end.
 
 (* ---- right combs: (a1, (a2, ... an)) ---- *)
 Fixpoint ty_comb (l : list ty) : option ty :=
@@ -243,6 +309,10 @@ Fixpoint data_has_type (t : ty) (d : data) {struct d} : bool :=
   | DLeft x, TOr a _ => data_has_type a x
   | DRight y, TOr _ b => data_has_type b y
   | DList l, TList a => forallb (data_has_type a) l
+  | DSet l, TSet a => forallb (data_has_type a) l && v_strict_sorted (map value_of_data l)
+  | DMap l, TMap a b =>
+      forallb (fun x => match x with DPair k v => data_has_type a k && data_has_type b v | _ => false end) l
+      && v_strict_sorted (map (fun x => v_key (value_of_data x)) l)
   | _, _ => false
   end.
 
@@ -263,7 +333,9 @@ Inductive pval : Type :=
 | PSome (v : pval)
 | PLeft (v : pval) (t : ty)    (* OrType.from_left(v, t): items = (v, Undefined) *)
 | PRight (t : ty) (v : pval)
-| PList (t : ty) (l : list pval).  (* ListType: class argument + Python list *)
+| PList (t : ty) (l : list pval)   (* ListType: class argument + Python list *)
+| PSet (t : ty) (l : list pval)    (* SetType: class argument + sorted Python list *)
+| PMap (kt vt : ty) (l : list pval).  (* MapType: items = [(key, value)...], an entry is written PPair key value *)
 
 (* type(v).as_micheline_expr(), annotations erased *)
 Fixpoint rt_type (v : pval) : ty :=
@@ -284,7 +356,76 @@ Fixpoint rt_type (v : pval) : ty :=
   | PLeft x t => TOr (rt_type x) t
   | PRight t x => TOr t (rt_type x)
   | PList t _ => TList t
+  | PSet t _ => TSet t
+  | PMap kt vt _ => TMap kt vt
   end.
+
+(* Python's < on str restricted to ASCII *)
+Fixpoint bytes_ltb (a b : bytes) : bool :=
+  match a, b with
+  | _, [] => false
+  | [], _ :: _ => true
+  | x :: r, y :: s =>
+      if (Byte.to_N x <? Byte.to_N y)%N then true
+      else if (Byte.to_N x =? Byte.to_N y)%N then bytes_ltb r s
+      else false
+  end.
+
+(* __eq__ of the value classes (IntType.__eq__ accepts any IntType subclass; UnitType.__eq__ as repaired:
+   isinstance check; mixed classes compare unequal) *)
+Fixpoint py_eq (a b : pval) {struct a} : bool :=
+  match a, b with
+  | PInt x, PInt y | PInt x, PNat y | PNat x, PInt y | PNat x, PNat y => (x =? y)%Z
+  | PMutez x, PMutez y | PTimestamp x, PTimestamp y => (x =? y)%Z
+  | PAddress x, PAddress y | PChainId x, PChainId y => bytes_eqb x y
+  | PStr x, PStr y => bytes_eqb x y
+  | PBytes x, PBytes y => bytes_eqb x y
+  | PBool x, PBool y => Bool.eqb x y
+  | PUnit, PUnit => true
+  | PPair a1 a2, PPair b1 b2 => py_eq a1 b1 && py_eq a2 b2
+  | PNone _, PNone _ => true
+  | PSome x, PSome y => py_eq x y
+  | PLeft x _, PLeft y _ => py_eq x y
+  | PRight _ x, PRight _ y => py_eq x y
+  | PList _ l1, PList _ l2 | PSet _ l1, PSet _ l2 | PMap _ _ l1, PMap _ _ l2 =>   (* list == list; map entries are tuples *)
+      (fix go (l1 l2 : list pval) : bool :=
+         match l1, l2 with
+         | [], [] => true
+         | x :: r1, y :: r2 => py_eq x y && go r1 r2
+         | _, _ => false
+         end) l1 l2
+  | _, _ => false
+  end.
+
+(* __lt__ of the value classes; non-comparable classes inherit MichelsonType.__lt__ which returns None (falsy) *)
+Fixpoint py_lt (a b : pval) {struct a} : bool :=
+  match a, b with
+  | PInt x, PInt y | PInt x, PNat y | PNat x, PInt y | PNat x, PNat y => (x <? y)%Z
+  | PMutez x, PMutez y | PTimestamp x, PTimestamp y => (x <? y)%Z
+  | PStr x, PStr y => bytes_ltb x y
+  | PBytes x, PBytes y => bytes_ltb x y
+  | PBool x, PBool y => negb x && y
+  | PPair a1 a2, PPair b1 b2 =>
+      if py_eq a1 b1 then (if py_eq a2 b2 then false else py_lt a2 b2) else py_lt a1 b1
+  | PNone _, PSome _ => true
+  | PSome x, PSome y => py_lt x y
+  | PLeft _ _, PRight _ _ => true
+  | PLeft x _, PLeft y _ => py_lt x y
+  | PRight _ x, PRight _ y => py_lt x y
+  | _, _ => false
+  end.
+
+
+(* check_constraints of SetType / MapType: no duplicates and keys == sorted(keys) *)
+Fixpoint py_strict_sorted (l : list pval) : bool :=
+  match l with
+  | [] => true
+  | x :: r => match r with
+              | [] => true
+              | y :: _ => py_lt x y && py_strict_sorted r
+              end
+  end.
+Definition py_key (entry : pval) : pval := match entry with PPair k _ => k | _ => entry end.
 
 (* "v is a well-formed pytezos value of type t": the class is t at every level, naturals are >= 0 *)
 Fixpoint pv_typedb (v : pval) (t : ty) {struct v} : bool :=
@@ -305,6 +446,11 @@ Fixpoint pv_typedb (v : pval) (t : ty) {struct v} : bool :=
   | PLeft x tr, TOr a b => pv_typedb x a && ty_eqb tr b
   | PRight tl y, TOr a b => ty_eqb tl a && pv_typedb y b
   | PList t' l, TList a => ty_eqb t' a && forallb (fun x => pv_typedb x a) l
+  | PSet t' l, TSet a => ty_eqb t' a && forallb (fun x => pv_typedb x a) l && py_strict_sorted l
+  | PMap kt vt l, TMap a b =>
+      ty_eqb kt a && ty_eqb vt b
+      && forallb (fun x => match x with PPair k v => pv_typedb k a && pv_typedb v b | _ => false end) l
+      && py_strict_sorted (map py_key l)
   | _, _ => false
   end.
 
@@ -327,6 +473,8 @@ Fixpoint erase (v : pval) : value :=
   | PLeft x _ => VLeft (erase x)
   | PRight _ x => VRight (erase x)
   | PList _ l => VList (map erase l)
+  | PSet _ l => VSet (map erase l)
+  | PMap _ _ l => VMap (map erase l)
   end.
 
 (* MichelsonType.from_micheline_value, type-directed; None = the literal is rejected *)
@@ -359,6 +507,31 @@ Fixpoint py_of_data (t : ty) (d : data) {struct d} : option pval :=
                         | _, _ => None
                         end
             end) l)
+  | DSet l, TSet a =>
+      match (fix go (l : list data) : option (list pval) :=
+               match l with
+               | [] => Some []
+               | x :: r => match py_of_data a x, go r with
+                           | Some u, Some us => Some (u :: us)
+                           | _, _ => None
+                           end
+               end) l with
+      | Some us => if py_strict_sorted us then Some (PSet a us) else None
+      | None => None
+      end
+  | DMap l, TMap a b =>
+      match (fix go (l : list data) : option (list pval) :=
+               match l with
+               | [] => Some []
+               | DPair k v :: r => match py_of_data a k, py_of_data b v, go r with
+                                   | Some pk, Some pv, Some us => Some (PPair pk pv :: us)
+                                   | _, _, _ => None
+                                   end
+               | _ :: _ => None
+               end) l with
+      | Some us => if py_strict_sorted (map py_key us) then Some (PMap a b us) else None
+      | None => None
+      end
   | _, _ => None
   end.
 
@@ -375,7 +548,7 @@ Fixpoint value_eqb (x y : value) {struct x} : bool :=
   | VSome a, VSome b => value_eqb a b
   | VLeft a, VLeft b => value_eqb a b
   | VRight a, VRight b => value_eqb a b
-  | VList l1, VList l2 =>
+  | VList l1, VList l2 | VSet l1, VSet l2 | VMap l1, VMap l2 =>
       (fix go (l1 l2 : list value) : bool :=
          match l1, l2 with
          | [], [] => true
@@ -402,8 +575,16 @@ Fixpoint pval_eqb (x y : pval) {struct x} : bool :=
   | PSome a, PSome b => pval_eqb a b
   | PLeft a t, PLeft b u => pval_eqb a b && ty_eqb t u
   | PRight t a, PRight u b => ty_eqb t u && pval_eqb a b
-  | PList t l1, PList u l2 =>
+  | PList t l1, PList u l2 | PSet t l1, PSet u l2 =>
       ty_eqb t u &&
+      (fix go (l1 l2 : list pval) : bool :=
+         match l1, l2 with
+         | [], [] => true
+         | a :: r1, b :: r2 => pval_eqb a b && go r1 r2
+         | _, _ => false
+         end) l1 l2
+  | PMap k1 v1 l1, PMap k2 v2 l2 =>
+      ty_eqb k1 k2 && ty_eqb v1 v2 &&
       (fix go (l1 l2 : list pval) : bool :=
          match l1, l2 with
          | [], [] => true
@@ -413,15 +594,3 @@ Fixpoint pval_eqb (x y : pval) {struct x} : bool :=
   | _, _ => false
   end.
 
-(* lexicographic order on byte strings *)
-Fixpoint bytes_cmp (a b : bytes) : comparison :=
-  match a, b with
-  | [], [] => Eq
-  | [], _ :: _ => Lt
-  | _ :: _, [] => Gt
-  | x :: r, y :: s =>
-      match N.compare (Byte.to_N x) (Byte.to_N y) with
-      | Eq => bytes_cmp r s
-      | c => c
-      end
-  end.
